@@ -481,7 +481,7 @@ func c19ChildMain() {
 }
 
 func checkC19(r *mon.Run) {
-	r.Rule = "objects: parsed image (unsigned; signed once/twice; signed in memory and not re-parsed; backed by bytes.Reader and by *os.File; >32 KiB), decoded and API-built databases, the signed-update value of SignEFIVariable and its descriptor. Sequential: all 120 orders of {Hash, Bytes, Open+read, Signatures, Verify} (and of the 5 database ops; 24 orders of the 4 signed-update ops), each op twice per order, plus 200 random repetitions per object. Concurrent: G ∈ {2,4,8,16} goroutines × 50 seeded ops on ONE shared object, GOMAXPROCS ∈ {2,4,16}, R rounds per object, in a binary built with -race (GORACE halt_on_error=0, log_path): every result must equal the baseline taken on the quiescent object, the object's observable state must be unchanged, and the race detector must stay silent (reports counted from the log, not from the exit code). distinct = (object kind, G, GOMAXPROCS, op multiset) rounds in which at least one pair of calls overlapped (measured with a global atomic logical clock)"
+	r.Rule = "objects: parsed image (unsigned; signed once/twice; signed in memory and not re-parsed; backed by bytes.Reader and by *os.File; >32 KiB), decoded and API-built databases, the signed-update value of SignEFIVariable and its descriptor. Sequential: all 120 orders of {Hash, Bytes, Open+read, Signatures, Verify} (and of the 5 database ops; 24 orders of the 4 signed-update ops), each op twice per order, plus 200 random repetitions per object. Cold start: 10 scenarios, each in a fresh -race process whose first library calls are made by 8 goroutines at once. Concurrent: G ∈ {2,4,8,16} goroutines × 50 seeded ops on ONE shared object, GOMAXPROCS ∈ {2,4,16}, R rounds per object, in a binary built with -race (GORACE halt_on_error=0, log_path): every result must equal the baseline taken on the quiescent object, the object's observable state must be unchanged, and the race detector must stay silent (reports counted from the log, not from the exit code). distinct = (object kind, G, GOMAXPROCS, op multiset) rounds in which at least one pair of calls overlapped (measured with a global atomic logical clock)"
 	r.Assume("trusts the Go race detector; overlap depends on the scheduler, so only the aggregate (every object kind saw overlapping calls) is a floor; pairs that never overlapped are listed as unobserved")
 	raceBin := os.Getenv("VCHECK_RACE_BIN")
 	if raceBin == "" {
